@@ -25,7 +25,7 @@ VARIABLES l, cnt, okrf, okkeys, written, closed, open, lateStart
 tvars == <<l, cnt, okrf, okkeys, written, closed, open, lateStart>>
 
 Mutating == {"KVSet", "KVDelete", "VAdd", "VAddBatch", "VDelete", "VSetMetadata", "VReinforce", "VLink", "VUnlink",
-             "VCreate", "VDeleteIndex", "SaveSnapshot", "RewriteAOF"}
+             "VCreate", "VDeleteIndex", "SaveSnapshot", "RewriteAOF", "VImport", "VImportCommit", "VEvolve"}
 Ev == TraceLog[l]
 IsEv(n) == l <= Len(TraceLog) /\ Ev.e = n
 Consume == l' = l + 1
